@@ -53,6 +53,9 @@ type runner struct {
 	bloat   int64
 	started bool
 	blast   int // remaining sends of a burst (send as fast as window and pacer allow)
+	back    bool  // this burst is stamped with strictly decreasing times (a non-monotonic clock reading per packet)
+	sendT   int64 // time stamp of the next send (0: now)
+	lastT   int64 // time stamp of the previous send
 }
 
 func (rn *runner) mk(mds int64, zeroRTT bool) {
@@ -114,11 +117,16 @@ func (rn *runner) genSend(r *vh.Rand, force bool) string {
 	if r.Chance(3) {
 		rn.nextPN += r.Range(1, 3) // skipped packet numbers
 	}
+	t := rn.now
+	if rn.sendT != 0 {
+		t, rn.sendT = rn.sendT, 0
+	}
+	rn.lastT = t
 	if ae == 1 {
-		rn.out = append(rn.out, pkt{pn, size, rn.now})
+		rn.out = append(rn.out, pkt{pn, size, t})
 		rn.bif += size
 	}
-	return fmt.Sprintf("sent %d %d %d %d", rn.now, pn, size, ae)
+	return fmt.Sprintf("sent %d %d %d %d", t, pn, size, ae)
 }
 
 // an ACK frame as sent_packet_handler processes it: RTT sample, MaybeExitSlowStart, then
@@ -384,6 +392,7 @@ func (rn *runner) GenOp(r *vh.Rand, i int) string {
 		sel = 0
 	} else if sel == 0 && r.Chance(35) {
 		rn.blast = int(r.Range(2, 40))
+		rn.back = r.Chance(30)
 	}
 	switch sel {
 	case 0:
@@ -394,6 +403,18 @@ func (rn *runner) GenOp(r *vh.Rand, i int) string {
 				return rn.genSend(r, true) // PTO probe / ACK-only packet while congestion limited
 			}
 			return rn.genAckFrame(r)
+		}
+		// time stamp of this packet: now, or (non-monotonic stamps) a little before the previous send
+		stamp := rn.now
+		if rn.lastT > 1_000_000 && ((rn.blast > 0 && rn.back) || r.Chance(4)) {
+			stamp = rn.lastT - r.Range(1, 2000)
+		}
+		if stamp != rn.now {
+			if rn.s.HasPacingBudget(monotime.Time(stamp)) {
+				rn.sendT = stamp
+				return rn.genSend(r, false)
+			}
+			rn.back = false
 		}
 		if !rn.s.HasPacingBudget(monotime.Time(rn.now)) {
 			switch r.Pick(60, 25, 15) {
